@@ -94,7 +94,7 @@ def check_credentials(req, realm, username=None):
                   auth.get('opaque'), opaque)
         return False
 
-    if not unquote(auth.get('uri')).endswith(req.full_path):
+    if not unquote(auth.get('uri', '')).endswith(req.full_path):
         log.error('Digest: uri %s not equal to %s',
                   auth.get('uri'), req.full_path)
         return False
@@ -122,8 +122,12 @@ def check_credentials(req, realm, username=None):
         log.error('Digest: username not found in auth_map')
         return False
 
-    if not check_response(req, password):
-        log.error('Digest: response not match')
+    try:
+        if not check_response(req, password):
+            log.error('Digest: response not match')
+            return False
+    except KeyError as err:     # nonce, nc or cnonce
+        log.error('Digest: %s value not found', err)
         return False
     return True
 
